@@ -185,6 +185,38 @@ func checkC06(c C06Case, o *Obs) error {
 		if err := compare("File(plain file), another pass over the same iterator value", again); err != nil {
 			return err
 		}
+		// a *.gz that cannot be opened as gzip (zero bytes; not gzip data) yields an error, no records
+		for _, bad := range [][]byte{{}, []byte("this is not gzip data\n")} {
+			tmpSeq++
+			badPath := filepath.Join(scratchDir(), fmt.Sprintf("bad%d.%s.gz", tmpSeq, c.Format))
+			os.WriteFile(badPath, bad, 0o644)
+			tmpFiles = append(tmpFiles, badPath)
+			got, over, p := collect(func(cb func(Item) bool) { codec.File(badPath, cb) }, 8)
+			if p != nil {
+				return fmt.Errorf("%s.File(%d-byte file named *.gz that is not gzip data) panicked: %v", c.Format, len(bad), p)
+			}
+			if over || len(got) == 0 || got[0].Err == nil {
+				return fmt.Errorf("%s.File(%d-byte file named *.gz that is not gzip data) yields %s, want an error", c.Format, len(bad), describeItems(got))
+			}
+		}
+		// the name the caller passes decides about decompression, also through symbolic links
+		tmpSeq++
+		linkGz := filepath.Join(scratchDir(), fmt.Sprintf("link%d.%s.gz", tmpSeq, c.Format))
+		blob := filepath.Join(scratchDir(), fmt.Sprintf("blob%d", tmpSeq))
+		if gzData, err := os.ReadFile(gz); err == nil && os.WriteFile(blob, gzData, 0o644) == nil && os.Symlink(blob, linkGz) == nil {
+			tmpFiles = append(tmpFiles, blob, linkGz)
+			if err := compare("File(symbolic link named *.gz to gzip data in a file without suffix)", func(cb func(Item) bool) { codec.File(linkGz, cb) }); err != nil {
+				return err
+			}
+		}
+		linkPlain := filepath.Join(scratchDir(), fmt.Sprintf("link%d.%s", tmpSeq, c.Format))
+		plainGzNamed := filepath.Join(scratchDir(), fmt.Sprintf("plain%d.gz", tmpSeq))
+		if os.WriteFile(plainGzNamed, text, 0o644) == nil && os.Symlink(plainGzNamed, linkPlain) == nil {
+			tmpFiles = append(tmpFiles, plainGzNamed, linkPlain)
+			if err := compare("File(symbolic link without .gz suffix to plain data in a file named *.gz)", func(cb func(Item) bool) { codec.File(linkPlain, cb) }); err != nil {
+				return err
+			}
+		}
 		missing := filepath.Join(scratchDir(), "does-not-exist", "x."+c.Format)
 		got, over, p := collect(func(cb func(Item) bool) { codec.File(missing, cb) }, 8)
 		if p != nil {
